@@ -217,6 +217,24 @@ Proof.
     destruct Hx as (y & <- & Hy). cbn [pd_press set_lat_lcd p_press]. apply map_fst_combine. exact (WF y Hy).
 Qed.
 
+(* ------------------------------------------------------------------ loopcarried_dependencies *)
+Lemma g_loopcarried_dependencies_eq : forall dep sep,
+  NoDup (map fst dep) -> Forall lcd_entry_ok dep ->
+  g_loopcarried_dependencies dep sep
+  = Ok (lcd_head ++ sconcat (map (fun p => lcd_row_text sep (pl_root (snd p)) (lcd_row_of (entry_of p))) (sort_pairs dep)))
+  /\ map (fun p => lcd_row_of (entry_of p)) (sort_pairs dep) = map lcd_row_of (sort_by_key (map entry_of dep)).
+Proof.
+  intros dep sep ND OK. split.
+  - unfold g_loopcarried_dependencies. cbv zeta. rewrite sorted_keys, py_for_map.
+    rewrite (py_for_sconcat (fun p => lcd_row_text sep (pl_root (snd p)) (lcd_row_of (entry_of p)))).
+    + cbn [bind]. unfold lcd_head. rewrite ?sapp_assoc. reflexivity.
+    + intros p s Hp. apply (proj1 (sort_pairs_in p dep)) in Hp. rewrite Forall_forall in OK.
+      exact (lcd_row_step dep sep p s ND Hp (OK p Hp)).
+  - rewrite <- sort_pairs_model.
+    + rewrite map_map. reflexivity.
+    + apply Forall_forall. intros p Hp. rewrite Forall_forall in OK. exact (proj1 (OK p Hp)).
+Qed.
+
 (* ================================================================== property theorems *)
 (* (T1) _get_flag_symbols is Model/Report.v's flag_symbols on the flag list; hence X is shown iff tp_unknown is in the list *)
 Theorem C13gen_flag_symbols_is_model : forall flags,
@@ -292,6 +310,25 @@ Theorem C13gen_full_analysis_dict_is_model : forall ports kernel aw lw cw cp dep
     /\ Forall (fun l => map fst (pd_press l) = ports) (pdd_kernel d).
 Proof. exact g_full_analysis_dict_eq. Qed.
 Print Assumptions C13gen_full_analysis_dict_is_model.
+
+(* (T9) loopcarried_dependencies prints one row per LCD in the order of sorted(keys): first line number, latency with one
+        decimal, root line, member lines -- the model's lcd_list (Props/C13.v lcd_list_complete applies to it) *)
+Theorem C13gen_lcd_list_is_model : forall ports kernel cp dep t q r sep,
+  let a := analysis_of ports kernel cp dep t in
+  report_model q a = Some r -> NoDup (map fst dep) -> Forall lcd_entry_ok dep ->
+  g_loopcarried_dependencies dep sep
+  = Ok (lcd_head ++ sconcat (map (fun p => lcd_row_text sep (pl_root (snd p)) (lcd_row_of (entry_of p))) (sort_pairs dep)))
+  /\ map (fun p => lcd_row_of (entry_of p)) (sort_pairs dep) = lcd_list r
+  /\ (forall e, In e (a_lcd a) -> exists w, In w (lcd_list r) /\ lr_lat w = lcd_lat e /\ lr_members w = map fst (lcd_deps e))
+  /\ List.length (lcd_list r) = List.length dep.
+Proof.
+  intros ports kernel cp dep t q r sep a HR ND OK. destruct (g_loopcarried_dependencies_eq dep sep ND OK) as (E1 & E2).
+  destruct (report_model_some q a r HR) as (_ & _ & HL & _). destruct (lcd_list_complete_proof q a r HR) as (C1 & _ & C3).
+  split; [exact E1|]. split; [rewrite HL; exact E2|]. split.
+  - intros e He. destruct (C1 e He) as (w & W1 & W2 & W3 & _). exists w. auto.
+  - rewrite C3. subst a. cbn [analysis_of a_lcd]. apply map_length.
+Qed.
+Print Assumptions C13gen_lcd_list_is_model.
 
 (* ------------------------------------------------------------------ the C13 theorems for what the CODE returns *)
 Section Code.
